@@ -643,6 +643,59 @@ func c17Run(r *core.Run) {
 		}
 		l.States++
 	}
+	// availability at every point of a request at which the Renderer middleware can run: as application
+	// middleware, group handler or route handler; reached by the chain advancing on its own, by an explicit Next()
+	// of a handler that has not written, and by the explicit Next() calls of a handler that HAS written (the chain
+	// does not advance on its own after that); every later handler of the request resolves a Render
+	for _, place := range []string{"use", "group", "route"} {
+		for _, drive := range []string{"automatic", "next", "written-then-next"} {
+			f := flamego.NewWithLogger(io.Discard)
+			var ran []string
+			first := func(c flamego.Context) {
+				switch drive {
+				case "next":
+					c.Next()
+				case "written-then-next":
+					c.ResponseWriter().WriteHeader(299)
+					for i := 0; i < 6; i++ {
+						c.Next()
+					}
+				}
+			}
+			h1 := func(r flamego.Render) { ran = append(ran, "h1") }
+			h2 := func(c flamego.Context, r flamego.Render) { ran = append(ran, "h2") }
+			switch place {
+			case "use":
+				f.Use(first, flamego.Renderer())
+				f.Get("/x", h1, h2)
+			case "group":
+				f.Use(first)
+				f.Group("/g", func() { f.Get("/x", h1, h2) }, flamego.Renderer())
+			case "route":
+				f.Get("/x", first, flamego.Renderer(), h1, h2)
+			}
+			path := "/x"
+			if place == "group" {
+				path = "/g/x"
+			}
+			var pan interface{}
+			func() {
+				defer func() { pan = recover() }()
+				f.ServeHTTP(&c01Spy{hdr: http.Header{}}, newReq("GET", path))
+			}()
+			l.Evals++
+			l.Transitions++
+			l.Traces++
+			l.States++
+			l.NonTrivial++
+			if pan != nil || strings.Join(ran, ",") != "h1,h2" {
+				l.Class("mismatch")
+				l.Violate("availability/"+place+"/"+drive, fmt.Sprintf("Renderer as %s handler, chain driven %s: the handlers after it that ask for a Render ran %v (panic %v), expected [h1 h2]", place, drive, ran, pan), c17Case{Kind: "availability"})
+			} else {
+				l.Class("availability:" + drive)
+			}
+		}
+	}
 	// the configured charset goes out as configured: names of every spelling the registries use
 	for _, cs := range c17Charsets {
 		for _, op := range c17CharsetOps {
